@@ -72,6 +72,8 @@ type who struct {
 	p          *pstate // nil outside a scheduled scenario
 	s          *sched  // nil outside a scheduled scenario
 	loads      *loadLog
+	sharedGot  string // what SetDeduplicationData handed to this request (followers only)
+	sharedSet  int
 	spin       func() // stress mode: called inside Load to widen the overlap (never a correctness signal)
 	poison     bool
 }
@@ -393,6 +395,12 @@ func (r *rig) request(ctx context.Context, layer, opType string, k Key, alt bool
 	if w != nil && w.poison {
 		rc.ExecutionOptions.DisableSubgraphRequestDeduplication = true
 		rc.ExecutionOptions.DisableInboundRequestDeduplication = true
+	}
+	if w != nil && !w.poison {
+		// the router's leader→follower side channel (response header propagation state)
+		resolve.SetDeduplicationCallbacks(rc,
+			func(context.Context) string { return "shared:" + k.String() },
+			func(_ context.Context, v string) { w.sharedGot = v; w.sharedSet++ })
 	}
 	return rc
 }
